@@ -31,13 +31,20 @@ T1 == <<"-@1", "+@1", "!@1", "@1", "&@1", "@1.a", "@1.len()", "@1.sum()", "@1.kh
         "@1.keys()", "@1.values()", "@1.items()", "@1.compute()", "@1()", "@1[0]", "@1[-1]", "@1['a']", "@1[:]", "@1.a = 1; @1", "@1[0] = 1; @1",
         "ceil(@1)", "floor(@1)", "round(@1)", "abs(@1)", "toInt(@1)", "toFloat(@1)", "toStr(@1)", "toBool(@1)", "repr(@1)", "load(@1)", "loadRaw(@1)", "dir(@1)", "typeId(@1)",
         "b(@1)", "p(@1)", "(@1)d", "d(@1)", "(@1)d6", "2d(@1)", "(@1)a10", "3a(@1)", "(@1)c10", "3c(@1)", "(@1)f", "`{@1}`", "`a{@1}b{@1}`", "[@1] * 3", "@1 ? 1 : 2", "@1 ? 1, 2",
-        "[@1..3]", "[1..@1]", "if @1 { 1 } else { 2 }", "while @1 { break }", "return @1", "^st力量=(@1)", "^st力量+=(@1)", "^st&力量=(@1)">>
+        "[@1..3]", "[1..@1]", "if @1 { 1 } else { 2 }", "while @1 { break }", "return @1", "^st力量=(@1)", "^st力量+=(@1)", "^st&力量=(@1)",
+        \* st values written without parentheses are parsed with statements, default-sides dice and bitwise operators off: forms whose
+        \* extent depends on those switches, so that a guard (look-ahead) and the real parse must agree on them
+        "^st力量=@1?2|3:4", "^st力量=@1?2&3:4", "^st力量=@1?2d:3", "^st力量=1?@1|3:4", "^st力量=@1|3", "^st力量=@1d", "^st力量=@1 d6", "^st&力量=@1|2", "^st力量-@1", "^st力量+@1|1", "^st力量:@1?2d:3 敏捷=@1",
+        "^st'b'd((@1)|6)", "^st力量=@1(1&``)", "^st力量*2=@1|1",
+        \* a macro line inside a template block switches a family off in the middle of an expression whose guard has already seen the rest
+        "x7 = `{% // #EnableDice wod false\n %}1` ? 2a10 : @1", "x7 = `{% // #EnableDice doublecross false\n %}1` ? 2c5 : @1", "x7 = `{% // #EnableDice coc false\n %}1` ? b2 : @1",
+        "x7 = `{% // #EnableDice fate false\n %}1` ? f : @1", "`{% // #EnableDice wod false\n %}{@1}` + 3a10", "[`{% // #EnableDice wod true\n %}`, 2a10, @1]">>
 T2 == <<"@1 + @2", "@1 - @2", "@1 * @2", "@1 / @2", "@1 % @2", "@1 ** @2", "@1 == @2", "@1 != @2", "@1 < @2", "@1 <= @2", "@1 > @2", "@1 >= @2",
         "@1 && @2", "@1 || @2", "@1 ?? @2", "@1 & @2", "@1 | @2", "@1[@2]", "@1[@2] = 1; @1", "@1[@2:]", "@1[:@2]", "@1.kh(@2)", "@1.kl(@2)", "@1.push(@2)", "@1.randSize(@2)",
         "@1(@2)", "@1.a(@2)", "store(@1, @2)", "(@1)d(@2)", "(@1)a(@2)", "(@1)c(@2)", "2d6k(@1)+(@2)", "3d6kh(@1)kl(@2)", "2d6min(@1)max(@2)", "[@1..@2]", "[@1, @2].sum()",
-        "[@1, @2].kh()", "{'k': @1}.k + @2", "{@1: @2}", "@1.a = @2; @1.a", "&cq = @1 + @2; cq", "func fq(n) { n + @1 }; fq(@2)", "^st力量=(@1) 敏捷=(@2)", "^st力量*(@1)=(@2)">>
+        "[@1, @2].kh()", "{'k': @1}.k + @2", "{@1: @2}", "@1.a = @2; @1.a", "&cq = @1 + @2; cq", "func fq(n) { n + @1 }; fq(@2)", "^st力量=(@1) 敏捷=(@2)", "^st力量*(@1)=(@2)", "^st力量=@1|@2", "^st力量=@1?@2|3:4", "^st力量-@1?@2:3", "^st力量-@1&&@2", "^st力量=@1 敏捷-@2", "^st力量=@1(@2&``)">>
 T3 == <<"@1[@2:@3]", "@1[@2:@3] = [1]; @1", "@1 ? @2 : @3", "@1 ? @2, @3 ? 1", "(@1)d(@2)k(@3)", "(@1)d(@2)q(@3)", "(@1)d(@2)dl(@3)", "(@1)d(@2)dh(@3)", "4d(@1)min(@2)k(@3)",
-        "(@1)a(@2)m(@3)", "3a(@1)k(@2)q(@3)", "(@1)c(@2)m(@3)", "@1(@2, @3)", "[@1, @2, @3].kl(2)", "@1[@2][@3]", "@1[@2] = @3; @1">>
+        "(@1)a(@2)m(@3)", "3a(@1)k(@2)q(@3)", "(@1)c(@2)m(@3)", "@1(@2, @3)", "[@1, @2, @3].kl(2)", "@1[@2][@3]", "@1[@2] = @3; @1", "^st力量-@1?@2:@3", "^st力量=@1?@2|3:@3", "^st力量=@1?@2d:@3">>
 
 \* nesting contexts: % is where the case goes
 Contexts == <<"%", "1; %", "if 1 { % }", "i7 = 0; while i7 < 2 { i7 = i7 + 1; % }", "i7 = 0; while i7 < 25 { i7 = i7 + 1; if 1 { continue }; % }",
@@ -59,6 +66,18 @@ AssignC2 == SelectSeq(Pairs(CycReps \o Partners2), HasCyc)
 AssignC3 == SelectSeq(Triples(CycReps \o Partners3), HasCyc)
 CycCases == Cases(T1, AssignC1) \o Cases(T2, AssignC2) \o Cases(T3, AssignC3)
 
+\* nesting: every construct that can contain itself, repeated to depths from the everyday to the absurd, closed or left open
+Nesters == <<[o |-> "[", c |-> "]"], [o |-> "(", c |-> ")"], [o |-> "g7(", c |-> ")"], [o |-> "v_arr[", c |-> "]"], [o |-> "`{", c |-> "}`"], [o |-> "{'a':", c |-> "}"],
+             [o |-> "if 1 {", c |-> "}"], [o |-> "while 0 {", c |-> "}"], [o |-> "1+(", c |-> ")"], [o |-> "-", c |-> ""], [o |-> "!", c |-> ""], [o |-> "1?", c |-> ":2"], [o |-> "1?2:", c |-> ""],
+             [o |-> "[1..", c |-> "]"], [o |-> "d(", c |-> ")"], [o |-> "2d6k(", c |-> ")"], [o |-> "`{%", c |-> "%}`"], [o |-> "func f7(){", c |-> "}"], [o |-> "&c7=", c |-> ""], [o |-> "x7=", c |-> ""],
+             [o |-> "^st力量=(", c |-> ")"], [o |-> "b(", c |-> ")"], [o |-> "1 ?? ", c |-> ""], [o |-> "1**", c |-> ""], [o |-> "[1][", c |-> "]"], [o |-> "v_dict.a(", c |-> ")"],
+             [o |-> "1+", c |-> ""], [o |-> "1 ", c |-> ""], [o |-> "x7.a", c |-> ""], [o |-> "1;", c |-> ""], [o |-> "'a'+", c |-> ""]>>     \* long rather than deep
+Depths == <<25, 600, 3000, 30000, 120000>>
+DeepCases == [k \in 1..(Len(Nesters) * Len(Depths) * 2) |->
+                LET i == ((k-1) \div (Len(Depths) * 2)) + 1
+                    j == (((k-1) \div 2) % Len(Depths)) + 1 IN
+                [o |-> Nesters[i].o, c |-> Nesters[i].c, n |-> Depths[j], closed |-> (k % 2 = 0)]]
+
 VARIABLE done
 Init == done = FALSE
 Write == /\ ~done
@@ -67,6 +86,7 @@ Write == /\ ~done
          /\ ndJsonSerialize(IOEnv.OUT2, Cases(T2, Assign2))
          /\ ndJsonSerialize(IOEnv.OUT3, Cases(T3, Assign3))
          /\ ndJsonSerialize(IOEnv.OUT4, CycCases)
+         /\ ndJsonSerialize(IOEnv.OUT5, DeepCases)
          /\ done' = TRUE
 Next == Write
 Spec == Init /\ [][Next]_done
